@@ -363,8 +363,8 @@ func c15(c *Check) {
 		{fn: "tendermint/types.bigEndianHeightBytes", kind: "slice-bounds", what: "zero([16]byte)[:16][8:]", reason: "constant bounds inside a 16-byte array"},
 		{fn: "xibc/module.(AppModule).InitGenesis", kind: "panic", what: "JSONCodec.UnmarshalJSON(", reason: "malformed genesis JSON (rejected by ValidateGenesis as well)"},
 		{fn: "bsc/types.ParseValidators", kind: "slice-bounds", what: "[(μ{0} * 20):((μ{0} + 1) * 20)]", reason: "loop bound n = len/20"},
-		{fn: "bsc/types.ParseValidators", kind: "var-index", what: "make([][]byte)[μ{0}]", reason: "result is made with length n and the loop runs i < n"},
-		{fn: "aggregate/keeper.(Keeper).CallEVMWithData", kind: "var-index", what: "make([]cosmos-sdk/types.Attribute)[μ{0}]", reason: "attribute slice is made with len(res.Logs) and indexed by the range index over res.Logs"},
+		{fn: "bsc/types.ParseValidators", kind: "var-index", what: "make([][]byte)}[μ{0}]", reason: "result is made with length n and the loop runs i < n"},
+		{fn: "aggregate/keeper.(Keeper).CallEVMWithData", kind: "var-index", what: "make([]cosmos-sdk/types.Attribute)}[μ{0}]", reason: "attribute slice is made with len(res.Logs) and indexed by the range index over res.Logs"},
 		{fn: "client/types.ParseChainID", kind: "var-index", what: "[(len(strings.Split($0, \"-\")) - 1)]", reason: "strings.Split returns at least one element"},
 	}
 
